@@ -46,6 +46,13 @@ func exprKeyCompute(v ssa.Value, d int) string {
 		}
 		return "c:" + x.Value.ExactString()
 	case *ssa.Parameter:
+		// a parameter of a function with exactly one static call site is named by its argument,
+		// so that a test moved into a helper keeps the key of the tested expression
+		if arg := uniqueCallArgument(x); arg != nil && d < 40 {
+			if k := exprKeyD(arg, d+1); k != "" && k[0] != '@' && !strings.HasPrefix(k, "ld@") {
+				return k
+			}
+		}
 		return "p:" + x.Name()
 	case *ssa.FreeVar:
 		return "fv:" + x.Name()
